@@ -166,6 +166,12 @@ func decodeID(raw asn1ID) (TRCID, error) {
 }
 
 func decodeValidity(a asn1Validity) (Validity, error) {
+	// The validity is encoded with a precision of seconds (X.509 times do not
+	// carry fractional seconds). Encode truncates to seconds, thus a payload
+	// with fractional seconds would not survive re-encoding.
+	if a.NotBefore.Nanosecond() != 0 || a.NotAfter.Nanosecond() != 0 {
+		return Validity{}, serrors.New("fractional seconds not allowed")
+	}
 	validity := Validity(a)
 	if err := validity.Validate(); err != nil {
 		return Validity{}, err
